@@ -1,6 +1,7 @@
 import TsrunVerif.Driver.Path
 import TsrunVerif.Driver.Heap
 import TsrunVerif.Driver.Num
+import TsrunVerif.Driver.Json
 
 /-! `tvdriver <model>`: line protocol, one observation line per case line. -/
 
@@ -17,5 +18,7 @@ def main (args : List String) : IO UInt32 := do
   match args with
   | ["path"] => loop stdin stdout TsrunVerif.Driver.pathLine; return 0
   | ["num"] => loop stdin stdout TsrunVerif.Driver.numLine; return 0
+  | ["jsonext"] => loop stdin stdout TsrunVerif.Driver.jsonExtLine; return 0
+  | ["json"] => loop stdin stdout TsrunVerif.Driver.jsonLine; return 0
   | ["heap"] => loop stdin stdout TsrunVerif.Driver.heapLine; return 0
   | _ => IO.eprintln "usage: tvdriver <model>"; return 2
